@@ -362,12 +362,57 @@ for _cls in ("JunctionCompartment", "ResidualJunctionCompartment"):
     CONTRACTS["model:%s.initial_flush#empty" % _cls] = dict(
         schema=schema,
         params={},
-        requires=["len(self.vals) >= 1", "self.vals[0] == 0",
+        requires=["len(self.vals) >= 1", "self.vals[0] == 0"] + (["all(l.parameter is not None for l in self.outlinks)"] if _cls == "JunctionCompartment" else []) + [
                   "all(implies(l.parameter is not None, len(l.parameter.vals) >= 1 and l.parameter.vals[0] >= 0) for l in self.outlinks)",
                   "all(implies(not isinstance(l.dest, TimedCompartment), len(l.dest.vals) >= 1) for l in self.outlinks)",
                   "all(implies(isinstance(l.dest, TimedCompartment), l.dest._vals.shape[0] >= 1 and l.dest._vals.shape[1] >= 1) for l in self.outlinks)"],
         modifies=[],
         ensures=[("C04+C10.empty_junction_stays_empty", "self.vals[0] == 0")],
+        frame_props=["C04", "C10"], defined_props=["C04"])
+
+    # the same clause with the number of outgoing links fixed (n = 1, 2) and the loop unrolled: a flush that runs although the
+    # junction is empty is then executed link by link (it re-spreads the rows of a timed destination) instead of being undecided
+    for _n in (1, 2):
+        CONTRACTS["model:%s.initial_flush#empty_n%d" % (_cls, _n)] = dict(
+            CONTRACTS["model:%s.initial_flush#empty" % _cls], unroll_max=3,
+            requires=CONTRACTS["model:%s.initial_flush#empty" % _cls]["requires"] + ["len(self.outlinks) == %d" % _n])
+
+
+# The non-empty flush, complete for each number of outgoing links n = 1, 2 (the list length is fixed by the precondition and
+# the loop is unrolled: `unroll_max`); destinations may be plain, junction or timed compartments and may coincide.
+_flush_req = ["len(self.vals) >= 1", "self.vals[0] > 0",
+              "all(l.dest is not self for l in self.outlinks)",
+              "all(implies(not isinstance(l.dest, TimedCompartment), len(l.dest.vals) >= 1) for l in self.outlinks)",
+              "all(implies(isinstance(l.dest, TimedCompartment), l.dest._vals.shape[0] >= 1 and l.dest._vals.shape[1] >= 1) for l in self.outlinks)"]
+for _n in (1, 2):
+    CONTRACTS["model:JunctionCompartment.initial_flush#n%d" % _n] = dict(
+        schema=schema, params={}, unroll_max=3, self_classes=["JunctionCompartment"],
+        requires=_flush_req + ["len(self.outlinks) == %d" % _n,
+                               "all(l.parameter is not None and len(l.parameter.vals) >= 1 and l.parameter.vals[0] >= 0 for l in self.outlinks)",
+                               "sum(l.parameter.vals[0] for l in self.outlinks) > 0"],
+        modifies=["self.vals[0]", "l.dest.vals[0] for l in self.outlinks if not isinstance(l.dest, TimedCompartment)",
+                  "l.dest._vals[:, 0] for l in self.outlinks if isinstance(l.dest, TimedCompartment)"],
+        ensures=[
+            ("C04.junction_is_empty_after_the_flush", "self.vals[0] == 0"),
+            ("C04.flushed_by_stated_proportions",
+             "all(l.dest[0] == old(l.dest[0]) + old(self.vals[0]) * sum(m.parameter.vals[0] for m in self.outlinks if m.dest is l.dest) / sum(m.parameter.vals[0] for m in self.outlinks) for l in self.outlinks)"),
+        ],
+        frame_props=["C04", "C10"], defined_props=["C04"])
+
+_T = "sum(m.parameter.vals[0] for m in self.outlinks if m.parameter is not None)"
+for _n in (1, 2):
+    CONTRACTS["model:ResidualJunctionCompartment.initial_flush#n%d" % _n] = dict(
+        schema=schema, params={}, unroll_max=3,
+        requires=_flush_req + ["len(self.outlinks) == %d" % _n,
+                               "all(implies(l.parameter is not None, len(l.parameter.vals) >= 1 and l.parameter.vals[0] >= 0) for l in self.outlinks)"],
+        modifies=["self.vals[0]", "l.dest.vals[0] for l in self.outlinks if not isinstance(l.dest, TimedCompartment)",
+                  "l.dest._vals[:, 0] for l in self.outlinks if isinstance(l.dest, TimedCompartment)"],
+        ensures=[
+            ("C04.junction_is_empty_after_the_flush", "self.vals[0] == 0"),
+            # stated proportions (scaled down to 1 when they exceed it) to the parameter links, the remainder to the residual link
+            ("C04.flushed_by_stated_proportions_remainder_to_residual",
+             "all(l.dest[0] == old(l.dest[0]) + old(self.vals[0]) * sum((m.parameter.vals[0] / max(1, %s) if m.parameter is not None else max(0, 1 - %s)) for m in self.outlinks if m.dest is l.dest) for l in self.outlinks)" % (_T, _T)),
+        ],
         frame_props=["C04", "C10"], defined_props=["C04"])
 
 
